@@ -131,8 +131,9 @@ def compare(cases, workdir, parallel=8):
             for b in cbad or []:
                 corebad.append(idx * SHARD + b)
     compare.corebad_raw = corebad
-    from .gen import cache_only_dirs, target_below_own
-    compare.corebad = [i for i in corebad if not cases[i].get("faults") and not cache_only_dirs(cases[i]) and not target_below_own(cases[i])]
+    from .gen import cache_only_dirs, target_below_own, targets_nest
+    compare.corebad = [i for i in corebad if not cases[i].get("faults") and not cache_only_dirs(cases[i]) and not target_below_own(cases[i])
+                       and not targets_nest(cases[i])]
     compare.specbad = [i for i in specbad if not cache_only_dirs(cases[i]) and not target_below_own(cases[i])]
     compare.spec_skipped = sum(1 for c in cases if cache_only_dirs(c) or target_below_own(c))
     out = []
